@@ -20,7 +20,7 @@ CHECKS = {
    "Trusted: ledger Hal (bounce semantics as swiotlb: copy-in at share, copy-back at unshare).",
    "proptest histories + share/unshare ledger invariant, bounce-buffer data oracle"),
  "C05": ("notify", "exploration", "4 C05",
-   "Event-index: every batch size and every placement of avail_event relative to the window, for all 65536 index values on the real queue, against vring_need_event (one-directional, as the property states), plus the full 65536x65536 (index, avail_event) table when the implementation is observed to be stateless. Flag mode, set_dev_notify and used_event re-arming are checked inside generated queue histories. The shared blocking helper is co-simulated against notify-driven, polling and late devices through a spin hook that detects a wait that can never end.",
+   "Event-index: every batch size and every placement of avail_event relative to the window, for all 65536 index values on the real queue, against vring_need_event (one-directional, as the property states), plus the full 65536x65536 (index, avail_event) table when the implementation is observed to be stateless. Flag mode, set_dev_notify and used_event re-arming are checked inside generated queue histories. Queue histories also check should_notify against vring_need_event over the window since the previous check (covers stateful implementations). The shared blocking helper is co-simulated against notify-driven, polling and late devices through a spin hook that detects a wait that can never end, and every driver's blocking and non-blocking submission paths are run (11 drivers x 4 transports x ring-feature subsets x 3 policies) on reference devices whose non-negotiated suppression field carries a decoy.",
    "Trusted: the co-simulated device follows the spec's re-arm/re-check rule. Single-threaded schedule owned by the harness; real concurrency is not explored.",
    "exhaustive predicate sweep/table + proptest co-simulation with device-policy generator"),
  "C06": ("layout", "exploration", "4 C06",
@@ -36,8 +36,8 @@ CHECKS = {
    "Trusted: transport models map register writes to the same abstract events; 'supports' = each driver's current SUPPORTED_FEATURES. Subsets of inspected bits are enumerated completely; arbitrary 64-bit sets are sampled.",
    "exhaustive configuration enumeration + proptest, ordered-trace automaton oracle + reference devices"),
  "C09": ("driver-sim", "fault_enumeration", "4 C09",
-   "For every constructor x transport x flag set x usage-script length, a dry run counts the DMA allocations of construction + usage + drop, then every allocation index is failed in turn; random fault indices/feature sets/policies on top. The ledger Hal and the transport model decide: failure surfaces as Err (no panic), every region returned once with its original triple, nothing live after drop, no queue memory or GPU backing released while the device is live/attached.",
-   "Trusted: ledger Hal, device liveness from the transport model (reset counts as quiescing). Heap buffers are observed through shares/queue memory, not an allocator interposer.",
+   "For every constructor x transport x flag set x usage-script length, a dry run counts the DMA allocations of construction + usage + drop, then every allocation index is failed in turn; random fault indices/feature sets/policies and a generated usage history per driver (incl. early / out-of-order completion polls) on top. The ledger Hal and the transport model decide: failure surfaces as Err (no panic), every region returned once with its original triple, nothing live after drop, no queue memory or GPU backing released while the device is live/attached.",
+   "Trusted: ledger Hal, device liveness from the transport model (reset counts as quiescing). An allocator interposer reports heap blocks freed while still shared with the live device.",
    "exhaustive DMA-fault-index enumeration + proptest, resource-ledger and liveness invariant"),
  "C10": ("mmio-trace", "exploration", "4 C10",
    "Every MMIO load/store of the real MmioTransport is served and recorded by a register-level virtio-mmio model (legacy and modern) plugged in through safe-mmio's custom-mmio backend; generated operation sequences and probe headers are judged per operation against access scripts/constraints derived from VirtIO 1.2 4.2.2-4.2.4 and against the model's resulting state; SomeTransport::Mmio must be trace-identical.",
